@@ -143,6 +143,14 @@ def py_operand(op, v):
     return v
 
 
+def moderate(v, base, lim=1024):
+    """finite components of moderate size (and a non-zero base)"""
+    z = complex(v)
+    if any(x != x or abs(x) > lim for x in (z.real, z.imag)):
+        return False
+    return abs(z) >= 1.0 / 1024 if base else True
+
+
 def demand(m, c, rtype, av, bv):
     """-> (want, source) or None when the property has no demand for this call."""
     cls = c["cls"]
@@ -200,15 +208,17 @@ def demand(m, c, rtype, av, bv):
         if st == "exc":
             return ("exc", p), "python"
         if type(p) is complex:
+            if p.imag == 0:
+                return None      # the documented representation shows a zero imaginary part as a float (extreme underflow only)
             return ("complex~", p, 1e-9), "python"
         return ("float", p), "python"
     pa, pb = py_operand(c["a"], av), py_operand(c["b"], bv)
     if cls == "complex":
         st, p = L.py_pow(pa, pb)
-        if st == "exc":
-            return ("complextype",), "python"
+        if st == "exc" or not (moderate(pa, True) and moderate(pb, False, 16)) or not moderate(p, False, 1e30):
+            return ("complextype",), "python"      # values of C complex arithmetic belong to C08; here: it is a complex
         lowp = rtype == "float complex" or "fcomplex" in (c["a"]["t"], c["b"]["t"]) or "float" in (c["a"]["t"], c["b"]["t"])
-        return ("complex~", complex(p), 1e-5 if lowp else 1e-9), "python"
+        return ("complex~", complex(p), 1e-4 if lowp else 1e-9), "python"
     # object: CPython exactly
     if isinstance(pa, int) and isinstance(pb, int) and not isinstance(pa, bool) and not isinstance(pb, bool) and abs(pa) > 1 and pb > 4096:
         return None
@@ -359,7 +369,7 @@ def run(tier, seed):
 
     # ---- model checking: the step machine runs while the small parts are used to generate the modules
     ex = concurrent.futures.ThreadPoolExecutor(max_workers=2)
-    fut_int = ex.submit(core.tlc, "Pow", cfg="Pow_int_q" if tier == "quick" else "Pow_int_t", timeout=2400, workers=None if tier != "quick" else 8)
+    fut_int = ex.submit(core.tlc, "Pow", cfg="Pow_int_q" if tier == "quick" else "Pow_int_t", timeout=2400, workers=None)
     small = core.tlc_or_die("Pow", cfg="Pow_small", timeout=900, workers=4)
     cov["tlc"].append(dict(small.summary(), config="small"))
     table = [r for r in small.printed if r["part"] == "table"]
@@ -506,7 +516,7 @@ def run(tier, seed):
         if want[0] == "int":
             bad = ("int", want[1] + 1)
         elif want[0] == "float" and want[1] == want[1] and want[1] not in (math.inf, -math.inf):
-            bad = ("float", -want[1] if want[1] == 0 else want[1] * 2 + 3)
+            bad = ("float", -want[1] if want[1] == 0 else abs(want[1]) * 2 + 3)
         elif want[0] == "exc":
             bad = ("exc", "KeyError")
         else:
